@@ -27,6 +27,8 @@
 #define SX_ENTRIES	4
 #define SX_INHANDLER	5
 #define SX_REL0		6	/* owner's spin-unlock count when the (un)registration call began */
+#define SX_CONSUMED	7	/* wake-ups that a handler run has certainly used up (those seen before the owner's
+				 * kernel wait that preceded the run returned); `posts` holds the count at that return */
 
 #define NGROUP 256
 static struct sgroup { int sig, scope, open, sole_excl; uint64_t seq; } sgroup[NGROUP];
@@ -101,6 +103,8 @@ static int signal_reg(struct rthr *th, int id)
 	o->xi[SX_INPROG] = 1;
 	o->xi[SX_OWED] = 0;
 	o->xi[SX_WAKES] = 0;
+	o->xi[SX_CONSUMED] = 0;
+	o->posts = 0;
 	o->xi[SX_ENTRYSEQ] = 0;
 	o->xi[SX_ENTRIES] = 0;
 	++SEQ;
@@ -258,10 +262,13 @@ static void obs_lock_event(int tid, void *addr, int acquired, int spin)
 	} else if (pend_deliv[tid].stage == 0 && pend_unreg[tid]) {
 		int id = pend_unreg[tid] - 1, i, g;
 		pend_unreg[tid] = 0;
-		for (i = 0; i < PL->nobj; i++)
-			if (i != id && PL->obj[i].kind == K_SIGNAL && PL->obj[i].p[0] == PL->obj[id].p[0] &&
-			    scope_of(i) == scope_of(id) && sig_in_tree(i))
-				RO[i].xi[SX_WAKES]++;
+		/* an exclusive interest hands on what it was woken for and has not run for; one that was never
+		 * woken since its last run (or is not exclusive) has nothing to hand on */
+		if ((PL->obj[id].p[1] & IV_SIGNAL_FLAG_EXCLUSIVE) && RO[id].xi[SX_WAKES] > RO[id].xi[SX_CONSUMED])
+			for (i = 0; i < PL->nobj; i++)
+				if (i != id && PL->obj[i].kind == K_SIGNAL && PL->obj[i].p[0] == PL->obj[id].p[0] &&
+				    scope_of(i) == scope_of(id) && sig_in_tree(i))
+					RO[i].xi[SX_WAKES]++;
 		/* The interest being unregistered is known to hold an undelivered wake-up (it was the only
 		 * exclusive one when the signal arrived and has not run since): the delivery is dispatched
 		 * afresh over what remains in the tree at this instant, with the usual fan-out rule. */
@@ -314,6 +321,8 @@ static void signal_cb(struct rthr *th, int id)
 
 	(void)th;
 	PROBE[PR_SIG_CB]++;
+	if (o->posts > o->xi[SX_CONSUMED])
+		o->xi[SX_CONSUMED] = o->posts;
 	o->xi[SX_ENTRIES]++;
 	o->xi[SX_ENTRYSEQ] = (int64_t)SEQ;
 	if (o->xi[SX_ENTRIES] > o->xi[SX_WAKES])
@@ -531,7 +540,15 @@ int ext_nesting_ok(int kind, int outer_kind) { return ext2_nesting_ok(kind, oute
 int ext_stale_ok(int id, int kind, int band) { return ext2_stale_ok(id, kind, band); }
 void ext_timer_order(struct rthr *th, int id) { (void)th; (void)id; }
 void ext_wait_block(struct rthr *th) { ext2_wait_block(th); }
-void ext_wait_return(struct rthr *th, int res, int err) { (void)th; (void)res; (void)err; }
+void ext_wait_return(struct rthr *th, int res, int err)
+{
+	int i, t = (int)(th - RT);
+	(void)res; (void)err;
+	/* whatever woke an interest before this point is used up by the handler run that follows */
+	for (i = 0; i < PL->nobj; i++)
+		if (PL->obj[i].kind == K_SIGNAL && PL->obj[i].owner == t && RO[i].registered)
+			RO[i].posts = (long)RO[i].xi[SX_WAKES];
+}
 void ext_time_advance(int64_t from, int64_t to) { ext2_time_advance(from, to); }
 void ext_budget(const char *what) { (void)what; }
 void ext_deadlock(const char *what) { (void)what; }
